@@ -101,7 +101,7 @@ def comp (b : Body) (ks : List Body) (n : Nat) : List Code × Nat :=
   | .cut, [] => ([.yieldT, .ret], n)
   | .cut, k :: ks => let (c, n) := comp k ks n; (c ++ [.ret], n)
   -- `$CUTIF(l)`
-  | .cutif l, [] => ([.brk l], n)
+  | .cutif l, [] => ([.yieldF, .brk l], n)   -- never arises: the marker is always followed by the action
   | .cutif l, k :: ks => let (c, n) := comp k ks n; (c ++ [.brk l], n)
   -- a goal
   | .call name args, [] => ([.foreach name args [.yieldF]], n)
@@ -146,6 +146,47 @@ decreasing_by
 /-- The `query` function as seen from a clause body: name and argument terms ↦ generator. -/
 abbrev Q := String → List Term → Gen
 
+/-! ### Outcome combinators
+
+How the outcome of one part of a run determines what happens next. -/
+
+/-- when the run ended normally, leave with reason `s`; an abandoned run stays abandoned -/
+def thenSig (s : Sig) (r : R) : R :=
+  match r with
+  | (w', none) => (w', some s)
+  | r => r
+
+/-- when the run ended normally, continue with `f` in the world it left -/
+def andThenR (f : World → R) (r : R) : R :=
+  match r with
+  | (w', none) => f w'
+  | r => r
+
+/-- the breakable block labelled `l`: a `break` travelling to `l` ends here, normally -/
+def catchBrk (l : Nat) (r : R) : R :=
+  match r with
+  | (w', some (.brk l')) => if l' = l then (w', none) else (w', some (.brk l'))
+  | r => r
+
+/-- if-then-else at level `d`: a commit at this level ends it; a condition without answer runs
+    `f` (the else branch); anything else is passed on -/
+def iteR (d : Nat) (f : World → R) (r : R) : R :=
+  match r with
+  | (w', some (.commit d')) => if d' = d then (w', none) else (w', some (.commit d'))
+  | (w', none) => f w'
+  | r => r
+
+@[simp] theorem thenSig_none (s : Sig) (w : World) : thenSig s (w, none) = (w, some s) := rfl
+@[simp] theorem thenSig_some (s x : Sig) (w : World) : thenSig s (w, some x) = (w, some x) := rfl
+@[simp] theorem andThenR_none (f : World → R) (w : World) : andThenR f (w, none) = f w := rfl
+@[simp] theorem andThenR_some (f : World → R) (x : Sig) (w : World) : andThenR f (w, some x) = (w, some x) := rfl
+@[simp] theorem iteR_none (d : Nat) (f : World → R) (w : World) : iteR d f (w, none) = f w := rfl
+@[simp] theorem iteR_commit (d d' : Nat) (f : World → R) (w : World) :
+    iteR d f (w, some (.commit d')) = if d' = d then (w, none) else (w, some (.commit d')) := rfl
+@[simp] theorem catchBrk_none (l : Nat) (w : World) : catchBrk l (w, none) = (w, none) := rfl
+@[simp] theorem catchBrk_brk (l l' : Nat) (w : World) :
+    catchBrk l (w, some (.brk l')) = if l' = l then (w, none) else (w, some (.brk l')) := rfl
+
 /-! ### Semantics of the IR (structured exits)
 
 `ret` leaves the function, `brk l` travels outwards to the block labelled `l`.
@@ -156,18 +197,12 @@ def exec (q : Q) (env : Env) : Code → K → World → R
   | .yieldT, k, w => k w
   | .ret, _, w => (w, some .ret)
   | .brk l, _, w => (w, some (.brk l))
-  | .block l body, k, w =>
-      match execList q env body k w with
-      | (w', some (.brk l')) => if l' = l then (w', none) else (w', some (.brk l'))
-      | r => r
+  | .block l body, k, w => catchBrk l (execList q env body k w)
   | .foreach name args body, k, w =>
       q name (args.map (STerm.eval env)) (fun w' => execList q env body k w') w
 def execList (q : Q) (env : Env) : List Code → K → World → R
   | [], _, w => (w, none)
-  | c :: cs, k, w =>
-      match exec q env c k w with
-      | (w', none) => execList q env cs k w'
-      | r => r
+  | c :: cs, k, w => andThenR (fun w' => execList q env cs k w') (exec q env c k w)
 end
 
 /-! ### Reference semantics of clause bodies
@@ -181,38 +216,20 @@ def solve (q : Q) (env : Env) : Nat → Body → K → World → R
   | _, .fail, _, w => (w, none)
   | _, .cutif _, k, w => k w
   -- cut: continue; when the continuation is exhausted, leave the clause
-  | _, .cut, k, w =>
-      match k w with
-      | (w', none) => (w', some .ret)
-      | r => r
+  | _, .cut, k, w => thenSig .ret (k w)
   | _, .call name args, k, w => q name (args.map (STerm.eval env)) k w
   | d, .conj a b, k, w => solve q env d a (fun w' => solve q env d b k w') w
   -- if-then-else: first answer of c only, then t; e when c has no answer
   | d, .disj (.ite c t) e, k, w =>
-      match solve q env (d+1) c (fun w' =>
-              match solve q env d t k w' with
-              | (w'', none) => (w'', some (.commit d))
-              | r => r) w with
-      | (w', some (.commit d')) => if d' = d then (w', none) else (w', some (.commit d'))
-      | (w', none) => solve q env d e k w'
-      | r => r
-  | d, .disj a b, k, w =>
-      match solve q env d a k w with
-      | (w', none) => solve q env d b k w'
-      | r => r
+      iteR d (fun w' => solve q env d e k w')
+        (solve q env (d+1) c (fun w' => thenSig (.commit d) (solve q env d t k w')) w)
+  | d, .disj a b, k, w => andThenR (fun w' => solve q env d b k w') (solve q env d a k w)
   -- if-then without else fails when c fails
   | d, .ite c t, k, w =>
-      match solve q env (d+1) c (fun w' =>
-              match solve q env d t k w' with
-              | (w'', none) => (w'', some (.commit d))
-              | r => r) w with
-      | (w', some (.commit d')) => if d' = d then (w', none) else (w', some (.commit d'))
-      | r => r
+      iteR d (fun w' => (w', none))
+        (solve q env (d+1) c (fun w' => thenSig (.commit d) (solve q env d t k w')) w)
   -- negation: succeeds (once, binding nothing) iff a has no answer
   | d, .neg a, k, w =>
-      match solve q env (d+1) a (fun w' => (w', some (.commit d))) w with
-      | (w', some (.commit d')) => if d' = d then (w', none) else (w', some (.commit d'))
-      | (w', none) => k w'
-      | r => r
+      iteR d k (solve q env (d+1) a (fun w' => (w', some (.commit d))) w)
 
 end Yld
